@@ -95,7 +95,9 @@ def run(ctx):
             lv = [d, d * 0.5 - 2e-4 * c["h"], d * 1.3 + 1e-4 * c["h"]]
             c["levels"][str(s)] = lv
             c["trial"][str(s)] = [x for l in lv for x in (l - eps, l, l + eps)]
-        c["want"] = []
+        c["want"] = ["stress"] if c["dim"] == 1 else []
+        if c["dim"] == 1:
+            c["probe"] = ["mesh", "quadrature"]
     results = run_impl_parallel("struct_run", [to_impl(c, i) for i, c in enumerate(cases)], workers=14, timeout=2400)
     findings, known = [], []
     for i, (c, r) in enumerate(zip(cases, results)):
@@ -134,6 +136,36 @@ def run(ctx):
                         known.append((c, msg))
                     else:
                         findings.append((c, msg))
+    # equilibrium certificate for the 1D histories, any material: the stored stresses of every step balance the
+    # pressure in the axisymmetric finite-element model (exact arithmetic), the reported force is their integral
+    import math
+    from harness.core import coq_eval_cases, q_lit
+    from harness.struct_common import arr, qfrac
+    H1D = "From Coq Require Import QArith List.\nFrom SV Require Import model.FE1D.\nImport ListNotations.\nOpen Scope Q_scope."
+    eq_terms, eq_owner = [], []
+    for i, (c, r) in enumerate(zip(cases, results)):
+        if c["dim"] != 1 or r.get("outcome") != "ok" or "quadrature" not in r:
+            continue
+        rs = [x[0] for x in arr(r["mesh"]["p"])]
+        xis, wts = np.ravel(arr(r["quadrature"]["points"])), np.ravel(arr(r["quadrature"]["weights"]))
+        gs = "[" + "; ".join("mkG %s %s" % (q_lit(qfrac(a)), q_lit(qfrac(b))) for a, b in zip(xis, wts)) + "]"
+        rl = "[" + "; ".join(q_lit(qfrac(x)) for x in rs) + "]"
+        for k in range(1, len(c["times"])):
+            S = [arr(r["quad"]["stress" + n])[k] for n in ("_xx", "_yy", "_zz")]
+            scale = (float(max(np.max(np.abs(x)) for x in S)) + 1.0) * c["r"]
+            ss = "[" + "; ".join("[" + "; ".join("(%s, %s, %s)" % tuple(q_lit(qfrac(S[j][e][g])) for j in range(3)) for g in range(len(xis))) + "]"
+                                   for e in range(len(rs) - 1)) + "]"
+            eq_terms.append("forallb (small (1#1000000) %s) (residual_s %s %s %s %s)" % (q_lit(qfrac(scale)), q_lit(qfrac(c["pressure"][k])), gs, rl, ss))
+            eq_owner.append((i, "step %d: the stored stresses do not balance the pressure in the axisymmetric finite-element equations" % k))
+            eq_terms.append("small (1#1000000000) %s (2 * %s * elem_axial_s %s %s %s - %s)" % (
+                q_lit(qfrac(scale * c["r"] * 10)), q_lit(qfrac(math.pi)), gs, rl, ss, q_lit(qfrac(uv(r["force"][k])))))
+            eq_owner.append((i, "step %d: the reported axial force is not 2 pi times the integral of r s_zz over the stored stresses" % k))
+    eq_fail = coq_eval_cases("c11eq", H1D, eq_terms, shard=20) if eq_terms else []
+    for kk in eq_fail:
+        i, msg = eq_owner[kk]
+        m = cases[i]["material"]
+        findings.append((cases[i], "%s/%s 1D%s: %s" % (m.get("name", m["kind"]), m.get("variant", ""), " forced sub-increments" if cases[i].get("substep") else "", msg)))
+    ctx.oblige("corr/equilibrium-of-stored-stresses-1D (%d terms)" % len(eq_terms), "corr", not eq_fail, "%d terms fail" % len(eq_fail))
     ctx.sample({"materials": sorted(set("%s/%s" % s for s in SHIPPED)), "cases": len(cases)})
     ctx.oblige("validated/difference-quotients (%d histories, 18 quotients each)" % len(cases), "validated", not findings, "%d failing checks" % len(findings))
     import os
